@@ -1,6 +1,7 @@
 import LenaModel.DriverUtil
 import LenaModel.Model.C15
 import LenaModel.Model.C15Spec
+import LenaModel.Model.C15Key
 /-! Model driver for C15.  Every request carries `"names"`: the key alphabet of the case.
 A context is a JSON object (nested; scalars null / bool / int / string; `["obj", s]` = an object json cannot
 encode whose `str()` is `s`); a value is `{"d": data, "c": context | null}` with data null / bool / int /
@@ -286,7 +287,7 @@ def handle (j : Json) : Json :=
           let specRun := ((beforeError names o vals).filter (fun v => call names o v = .ok true), firstError names o vals)
           Json.mkObj ([("r", ofList (fun v => resJson (call names o v)) vals)] ++ runOutJson names (filterRun names o vals)
             ++ [("fill", ofList (fun v => resJson (filterFillInto names o v)) vals),
-                ("specRun", Json.mkObj (runOutJson names specRun))] ++ semFields names spec roe top vals)
+                ("specRun_eq_model", Json.bool (decide (specRun = filterRun names o vals)))] ++ semFields names spec roe top vals)
       | _, _, _ => err "bad select args"
     | some "filterseq" =>
       match specOf (getD j "a"), specOf (getD j "b"), (arr? (getD j "values")).bind (·.toList.mapM (itemOf names)) with
@@ -297,7 +298,7 @@ def handle (j : Json) : Json :=
             ((filterRun names b (filterRun names a vals).1).2).orElse (fun _ => (filterRun names a vals).2))
           Json.mkObj (runOutJson names (filterSeqRun names a b vals) ++
             [("and", Json.mkObj (runOutJson names (filterRun names (.andO [a, b] true) vals))),
-             ("stages", Json.mkObj (runOutJson names stages))])
+             ("stages_eq_model", Json.bool (decide (stages = filterSeqRun names a b vals)))])
         | _, _ => Json.mkObj [("init", "LenaTypeError")]
       | _, _, _ => err "bad filterseq args"
     | some "runif" =>
@@ -309,7 +310,8 @@ def handle (j : Json) : Json :=
         | some o =>
           let specRun := ((beforeError names o vals).flatMap (fun v => if call names o v = .ok true then seq v else [v]),
             firstError names o vals)
-          Json.mkObj (runOutJson names (runIfRun names o seq vals) ++ [("specRun", Json.mkObj (runOutJson names specRun))])
+          Json.mkObj (runOutJson names (runIfRun names o seq vals) ++
+            [("specRun_eq_model", Json.bool (decide (specRun = runIfRun names o seq vals)))])
       | _, _, _ => err "bad runif args"
     | some "contains" =>
       match slots? names (getD j "ctx"), str? (getD j "s") with
@@ -384,6 +386,7 @@ def handle (j : Json) : Json :=
               | _, _ => []
             Json.mkObj ([("groups", ofList (ofList idxOfItem) (gbCompute gs)),
                         ("keys", ofList (fun g => valToJson names (.dict g.1)) gs),
+                        ("keystrs", ofList (fun g => Json.str (keyString names g.1)) gs),
                         ("errors", Json.arr errs.toArray), ("after", ofList (ofList idxOfItem) (gbCompute after))]
                         ++ specInit ++ spec)
       | _, _, _ => err "bad groupby args"
